@@ -243,7 +243,10 @@ fn get_new_path<L: Locale>(
     });
     location.hash.with_untracked(|hash| {
         if !hash.is_empty() {
-            new_path.push('#');
+            // in the browser `hash` is `window.location.hash`, which already starts with '#'
+            if !hash.starts_with('#') {
+                new_path.push('#');
+            }
             new_path.push_str(hash);
         }
     });
